@@ -2,6 +2,7 @@ package registry
 
 import (
 	"go/types"
+	"sort"
 	"strconv"
 )
 
@@ -157,8 +158,17 @@ func (m MethodScope) populateImports(t types.Type, imports map[string]*Package) 
 func (m MethodScope) resolveImportVarConflicts(imports map[string]*Package) {
 	// Ensure that all the newly added imports do not conflict with any of the
 	// existing vars.
-	for _, imprt := range imports {
-		if v, ok := m.searchVar(imprt.Qualifier()); ok {
+	//
+	// The renames do not always commute (a variable called a, and imports
+	// with the qualifiers a and aMoqParam), so visit the imports in a fixed
+	// order rather than in map order.
+	paths := make([]string, 0, len(imports))
+	for path := range imports {
+		paths = append(paths, path)
+	}
+	sort.Strings(paths)
+	for _, path := range paths {
+		if v, ok := m.searchVar(imports[path].Qualifier()); ok {
 			v.Name += "MoqParam"
 		}
 	}
